@@ -27,6 +27,8 @@ TECHNIQUE = ("static analysis: dependence and asymptotic-limit analyses under th
 
 MAP = mr.MAP
 
+from . import map_folds as mf
+
 
 def r1_r2(run, tree):
     run.rule("C11.R1", "slab pre-selection depends on cell size and dz; large-cell limit", "D4 + D5 (mode thick)", "", floor=6)
@@ -34,112 +36,25 @@ def r1_r2(run, tree):
 
 
 def r3(run, tree):
-    run.rule("C11.R3", "reduction axis agreement; per-layer operation; kernel depth window", "axis labels + D1", "", floor=4)
+    run.rule("C11.R3", "reduction along the depth axis of the kernel output with each layer's own operation; values and unit scaled by the depth "
+             "spacing exactly for thick sum/nansum; kernel depth window", "D7 fold of map() + D1 symbolic kernel shape", "", floor=4)
     fi = tree.func(MAP)
-    run.analysed(fi)
-    red = []
-    for c in calls_in(fi.node):
-        if isinstance(c.func, ast.Call) and is_name(c.func.func, "getattr") and len(c.func.args) == 2 and \
-                tree.dotted(fi.module, c.func.args[0]) == "numpy":
-            red.append(c)
-    if not red:
-        run.violated(MAP + "::reduction", fi.where(), "no getattr(np, <operation>)(..., axis=...) call", "thick maps are not reduced")
-        return
-    # position of nz in the kernel's output
     try:
         kfi, ev, env = run_kernel(tree, 3)
         out = env.get("out")
         shape = [repr(x) for x in out[1]]
         nz_pos = shape.index("grid_positions_in_original_basis.shape[0]")
-        # grid_positions is indexed [k, j, i]; k is the depth loop (paired with the z arrays by C03.R3)
     except Exception as e:
         run.unresolved(MAP + "::reduction-axis", fi.where(), "cannot locate the depth axis of the kernel output: %s" % e)
         return
-    for c in red:
-        ax = next((const_value(k.value) for k in c.keywords if k.arg == "axis"), None)
-        run.ob(MAP + "::reduction-axis", ax == nz_pos, fi.where(c), "reduces along axis %r; the depth axis of the kernel output is %d" % (ax, nz_pos),
-               "the reduction collapses the layer or a pixel axis instead of the depth")
-        opn = norm(c.func.args[1])
-        run.ob(MAP + "::reduction-uses-layer-operation", opn.startswith("operations[") or ".operation" in opn, fi.where(c),
-               "operation expression: %s" % opn, "a layer-level operation is ignored in the depth reduction")
-    # the data handed to the reduction is the kernel output
+    mf.check_map(run, tree, aspects=("rendered",), depth_axis=nz_pos - 1)
     mr.check_kernel_footprint(run, tree)
 
 
-def r4(run, tree):
-    run.rule("C11.R4", "values and unit scaled under one guard, per layer", "sibling agreement", "", floor=2)
-    fi = tree.func(MAP)
-    found = False
-    for n in walk_no_nested(fi.node):
-        if not isinstance(n, ast.If):
-            continue
-        t = norm(n.test)
-        val_scaled = [s for s in ast.walk(n) if isinstance(s, ast.AugAssign) and isinstance(s.op, ast.Mult) and norm(s.value) == "zspacing"]
-        unit_scaled = [s for s in ast.walk(n) if isinstance(s, ast.Assign) and "['unit']" in norm(s.targets[0]) and "dataz.unit" in norm(s.value)]
-        if val_scaled or unit_scaled:
-            found = True
-            both = bool(val_scaled) and bool(unit_scaled)
-            guard_ok = "thick" in t and "sum" in t and "nansum" in t
-            run.ob(MAP + "::depth-scaling-one-guard", both, fi.where(n), "under `%s`: values scaled=%s unit scaled=%s" % (t, bool(val_scaled), bool(unit_scaled)),
-                   "a column density whose numbers are multiplied by dz but labelled with the volume unit (or vice versa)")
-            run.ob(MAP + "::depth-scaling-guard", guard_ok, fi.where(n), "guard `%s`" % t,
-                   "mean/min/max maps are multiplied by the depth step, or sum maps are not")
-            # per layer: the statements index the layer
-            per_layer = all("[ind]" in norm(s.targets[0]) or "[ind]" in norm(s.value) for s in unit_scaled) and "operations[" in t
-            run.ob(MAP + "::depth-scaling-per-layer", per_layer, fi.where(n), "scaling applies to the layer being reduced: %s" % per_layer,
-                   "one layer's operation decides the unit of all layers")
-            same_target = all(isinstance(s.target, ast.Name) for s in val_scaled)
-    if not found:
-        run.violated(MAP + "::depth-scaling", fi.where(), "no depth scaling of values/unit found", "sum over depth is not an integral")
-    # other (non-sum) scaling sites must not exist
-    stray = [s for s in walk_no_nested(fi.node) if isinstance(s, ast.AugAssign) and norm(s.value) == "zspacing"]
-    run.ob(MAP + "::single-scaling-site", len(stray) == 1, fi.where(), "%d statements scale by zspacing" % len(stray),
-           "values scaled twice or under another condition")
-
-
 def r5(run, tree):
-    run.rule("C11.R5", "depth grid formulas", "D1 polynomial identities", "", floor=4)
-    mr.check_grid_formulas(run, tree, "z")
-    fi = tree.func(MAP)
-    # zmin / zmax
-    zmin = [s for s in mr.find_assign(fi, "zmin") if "dz" in norm(s.value)]
-    zmax = [s for s in mr.find_assign(fi, "zmax") if "dz" in norm(s.value)]
-    dzm = S("dzm")
-    ok = False
-    if len(zmin) == 1 and len(zmax) == 1:
-        try:
-            env = {"dz.magnitude": dzm}
-            a = mr.FormulaEval(tree, fi, env).ev(zmin[0].value)
-            env["zmin"] = a
-            b = mr.FormulaEval(tree, fi, env).ev(zmax[0].value)
-            ok = a == dzm * F(-1, 2) and b == dzm * F(1, 2)
-            detail = "zmin = %r, zmax = %r" % (a, b)
-        except Unsupported as e:
-            detail = "cannot evaluate: %s" % e
-    else:
-        detail = "assignments not found"
-    run.ob(MAP + "::depth-range", ok, fi.where(zmin[0]) if zmin else fi.where(), detail, "the sampled column is not [-dz/2, dz/2]")
-    # default depth resolution
-    dflt = [s for s in walk_no_nested(fi.node) if isinstance(s, ast.Assign) and norm(s.targets[0]) == "resolution['z']"]
-    ok = False
-    detail = "assignment of the default depth resolution not found"
-    if len(dflt) == 1:
-        env = {"zmin": S("zmin"), "zmax": S("zmax"), "xspacing": S("xs"), "yspacing": S("ys")}
-        try:
-            v = mr.FormulaEval(tree, fi, env).ev(dflt[0].value)
-            want = Rat(S("zmax") - S("zmin")) / Rat((S("xs") + S("ys")) * F(1, 2))
-            ok = isinstance(v, Fn) and v.name == "round" and Rat.lift(v.args[0]) == want
-            detail = "default nz = %r" % (v,)
-        except Unsupported as e:
-            detail = "cannot evaluate: %s" % e
-        guarded = False
-        from ..flow import guards_of
-        g = guards_of(fi.node, dflt[0]) or []
-        guarded = any(norm(t) == "'z' not in resolution" and pol for t, pol in g) and any(norm(t) == "thick" and pol for t, pol in g)
-        run.ob(MAP + "::depth-resolution-only-when-missing", guarded, fi.where(dflt[0]), "default applied under %s" % [norm(t) for t, _ in g],
-               "a depth resolution given by the caller is overridden")
-    run.ob(MAP + "::default-depth-resolution", ok, fi.where(dflt[0]) if dflt else fi.where(), detail,
-           "the depth step is not matched to the pixel size")
+    run.rule("C11.R5", "depth grid: window [-dz/2, dz/2], spacing dz/nz, nz given or round(dz / mean pixel size), only when missing; caller's "
+             "resolution dict untouched", "D7 fold of map() + D1 on scalars", "", floor=4)
+    mf.check_map(run, tree, aspects=("geometry", "inputs"))
 
 
-RULES = [r1_r2, r3, r4, r5]
+RULES = [r1_r2, r3, r5]
